@@ -102,7 +102,18 @@ Theorem C01_worker_at_quiescence_has_processed_the_sequential_sequence : forall 
     Peel.proj cont l tr = map WorkerAbs.evc (released ++ WorkerAbs.retained w l).
 Proof. exact WorkerAbs.worker_quiescent_is_sequential. Qed.
 
+(* ... and every LP's STATE is then the one the sequential execution leaves it in *)
+Theorem C01_worker_at_quiescence_lp_states_are_sequential : forall (p : prog) (ck : nat), prog_valid p = true -> WorkerOnceApp.types_okb p = true ->
+  forall ops : list Worker.wop,
+  let w := fold_left (Worker.wstep p ck) ops (Worker.w_init p) in
+  WorkerSafety.pend w = nil ->
+  forall tr, Peel.seqrun cont (Abs.clt cont cltb) lpstate (Bridge.handle_g cont lpstate (ahandle p) (fun _ => true)) (s0 p) (Bridge.Pg cont (WorkerAbs.init0 p) (fun _ => true)) tr ->
+  forall l, (l < nlps p)%nat ->
+    Worker.x_st (Worker.get_lp w l) = fold_left (fun s c => fst (ahandle p l s c)) (Peel.proj cont l tr) (s0 p l).
+Proof. exact WorkerAbs.worker_quiescent_state_is_sequential. Qed.
+
 Print Assumptions C01_worker_refines_the_abstract_machine.
+Print Assumptions C01_worker_at_quiescence_lp_states_are_sequential.
 Print Assumptions C01_worker_histories_below_a_valid_bound_are_sequential.
 Print Assumptions C01_worker_histories_before_any_gvt.
 Print Assumptions C01_worker_at_quiescence_has_processed_the_sequential_sequence.
